@@ -32,19 +32,19 @@ const c10tPath = "pkg/filter/network/streamproxy/streamproxy.go"
 
 // c10tFn is the per-function translation context.
 type c10tFn struct {
-	name    string
-	locals  []string          // threaded locals besides s, in order
-	ltypes  map[string]string // their Lean types
-	ret     func(rs []string) (string, error)
-	resVars map[string]bool // local names bound to the cluster's Connections() resource
-	nk      int
-	funcs   map[string]*ast.FuncDecl // methods of *proxy by name
-	flags   map[string]bool
-	stats   map[string]bool
-	events  map[string]bool
-	neutral map[string]bool // methods of *proxy proven neutral (no counter / close / host statement)
-	emitted map[string]bool // functions translated (callable as `name o s`)
-	loopBody []ast.Stmt     // body of the retry-over-hosts loop (rendered as <name>Loop)
+	name     string
+	locals   []string          // threaded locals besides s, in order
+	ltypes   map[string]string // their Lean types
+	ret      func(rs []string) (string, error)
+	resVars  map[string]bool // local names bound to the cluster's Connections() resource
+	nk       int
+	funcs    map[string]*ast.FuncDecl // methods of *proxy by name
+	flags    map[string]bool
+	stats    map[string]bool
+	events   map[string]bool
+	neutral  map[string]bool // methods of *proxy proven neutral (no counter / close / host statement)
+	emitted  map[string]bool // functions translated (callable as `name o s`)
+	loopBody []ast.Stmt      // body of the retry-over-hosts loop (rendered as <name>Loop)
 }
 
 var (
@@ -62,16 +62,16 @@ var (
 
 // statements with no effect on the ledger, the connections or the session's host (exact canonical text)
 var c10tSkipExact = map[string]bool{
-	"clusterName := p.getUpstreamCluster()": true,
-	"clusterSnapshot := p.clusterManager.GetClusterSnapshot(context.Background(), clusterName)": true,
-	"clusterInfo := clusterSnapshot.ClusterInfo()":                                                 true,
-	"ctx := &LbContext{ conn: p.readCallbacks, ctx: p.ctx, cluster: clusterInfo, }":               true,
-	"var connectionData types.CreateConnectionData":                                                true,
-	"upstreamConnection := connectionData.Connection":                                              true,
-	"hostInfo := p.readCallbacks.UpstreamHost()":                                                   true,
+	"clusterName := p.getUpstreamCluster()":                                                                                          true,
+	"clusterSnapshot := p.clusterManager.GetClusterSnapshot(context.Background(), clusterName)":                                      true,
+	"clusterInfo := clusterSnapshot.ClusterInfo()":                                                                                   true,
+	"ctx := &LbContext{ conn: p.readCallbacks, ctx: p.ctx, cluster: clusterInfo, }":                                                  true,
+	"var connectionData types.CreateConnectionData":                                                                                  true,
+	"upstreamConnection := connectionData.Connection":                                                                                true,
+	"hostInfo := p.readCallbacks.UpstreamHost()":                                                                                     true,
 	"p.upstreamConnection.SetCollector(p.clusterInfo.Stats().UpstreamBytesReadTotal, p.clusterInfo.Stats().UpstreamBytesWriteTotal)": true,
-	"p.readCallbacks.Connection().SetReadDisable(false)":                                                                              true,
-	"p.readCallbacks.Connection().SetReadDisable(true)":                                                                               true,
+	"p.readCallbacks.Connection().SetReadDisable(false)":                                                                             true,
+	"p.readCallbacks.Connection().SetReadDisable(true)":                                                                              true,
 }
 
 // c10tTouches: does the node contain a call that can move a counter, close a connection, connect, or set the host?
@@ -873,7 +873,9 @@ func genC10TcpProxy() (string, error) {
 		sort.Strings(l)
 		return l
 	}
-	ctors := func(l []string) string { return "  | " + strings.Join(l, " | ") + "\n  deriving DecidableEq, Repr, Inhabited\n" }
+	ctors := func(l []string) string {
+		return "  | " + strings.Join(l, " | ") + "\n  deriving DecidableEq, Repr, Inhabited\n"
+	}
 	s := header("TcpProxy", c10tPath+" (initializeUpstreamConnection, onUpstreamEvent, onUpstreamEventStats, finalizeUpstreamConnectionStats, onDownstreamEvent, onInitFailure, closeUpstreamConnection)", "mosn.io/api network.go (ConnectionEvent, IsClose, ConnectionCloseType)")
 	s += "set_option linter.unusedVariables false\n"
 	s += "/-- api.ConnectionEvent, declaration order -/\ninductive Event where\n" + ctors(events)
